@@ -14,7 +14,7 @@ from __future__ import annotations
 
 import numpy as np
 
-from vf import sim
+from vf import sim, tables
 
 PID = "C04"
 RULE = (
@@ -53,10 +53,56 @@ def generate(ck):
         if d["cls"] == "ideal" and rng.random() < 0.5:
             d["alpha_var"] = {"kind": str(rng.choice(["linear", "exp", "step"])), "beta": float(rng.choice([0.5, 3.0, 20.0]))}
         descs.append(d)
+        if len(descs) % 45 == 0:
+            # a group of four simulations with one node count, to be run at the same time
+            nx = int(rng.choice([10, 30, 80]))
+            group = []
+            while len(group) < 4:
+                g = sim.random_sim_desc(rng, ck.tier, nx_choices=(nx,), families=("quadratic", "geometric", "sorted-random", "mixed", "dyadic-blocks"))
+                g["grid"]["nt"] = int(rng.choice([120, 300]))
+                g["reused"] = False
+                if g["cls"] == "single":
+                    al_ = np.asarray(tables.from_desc(g["table"]).get("compressibility", [1.0]), dtype=float)
+                    if not np.all(al_ > 0):
+                        continue
+                group.append(g)
+            descs.append({"kind": "threads", "runs": group})
     return descs
 
 
+def _threads_case(ck, desc):
+    """Several simulations at once (a thread pool fitting one well per thread), all with the SAME
+    node count: each stored level of each run is still the backward-Euler update of its own previous
+    level. Events are matched to their objects; each run is judged by the ordinary residual oracle."""
+    built = [sim.build(d) for d in desc["runs"]]
+    runs = [(b[0], b[1], b[2]) for b in built]
+    evs, errs = sim.simulate_concurrently(runs)
+    sim.reset_solver()
+    if errs:
+        ck.violation("threads-every-simulate-returns", {"errors": errs[:3]}, desc)
+        return True, None
+    nontrivial = False
+    for d, b, ev in zip(desc["runs"], built, evs):
+        if ev is None:
+            ck.inconclusive_because("postcondition on simulate did not fire exactly once for a concurrent run")
+            return False, None
+        res, time, sched, fluid, _ = b
+        ck.count("contract_evaluations.simulate")
+        pp, t = ev["pp"], ev["time"]
+        if not np.all(np.isfinite(pp)):
+            ck.violation("finite-field", {"n_bad": int((~np.isfinite(pp)).sum()), "concurrent": True}, desc)
+            continue
+        m_i, m_f = sim.frac_face_values(d, res, fluid, time, sched)
+        nt_, _ = judge_steps(ck, d, d["cls"], res, t, pp, m_i, m_f)
+        nontrivial = nontrivial or nt_
+        ck.count("runs_simulated_concurrently")
+    ck.count("thread_groups")
+    return nontrivial, {"threads": len(runs), "nx": desc["runs"][0]["nx"]}
+
+
 def run_case(ck, desc):
+    if desc.get("kind") == "threads":
+        return _threads_case(ck, desc)
     res, time, sched, fluid, _ = sim.build(desc)
     if fluid is not None:
         al_ = np.asarray(fluid.pvt_props["alpha"], dtype=float)
